@@ -150,6 +150,7 @@ var seedExpectations = []seedExpect{
 	{"template-close", "C08", "template.close", "typeSpec"},
 	{"type-error-dropped", "C11", "errflow.nilonly", "lowerLocalConst"},
 	{"sample-offset-dropped", "C09", "sample.offsetkept", "lowerTextureSampleCompare"},
+	{"glsl-vector-select", "C05", "select.condshape", "writeSelect"},
 	{"stale-type-tables", "C09", "phase.stalehandles", "buildGlobalExprFromAST"},
 	{"stale-type-tables", "C10", "phase.stalehandles", "coerceScalarToType"},
 	{"stale-type-tables", "C09", "handle.zerosentinel", "findScalarType"},
